@@ -194,7 +194,19 @@ def check_acc(run, m, only_count=False):
         # leaves the window on that path (or the leaving one is null) and the value returned is the
         # closure's own result
         import dtree as _dt
-        tail = m.body.get('expr') if m.body.get('k') == 'Block' else None
+
+        def tails(e):
+            # the values the closure ends with on its ordinary (non-returning) paths
+            e = peel(e)
+            if e.get('k') == 'Block':
+                return tails(e['expr']) if 'expr' in e else []
+            if e.get('k') == 'If' and len(e['ch']) > 2:
+                return tails(e['ch'][1]) + tails(e['ch'][2])
+            if e.get('k') == 'Ret':
+                return []
+            return [e]
+        tail_vals = tails(m.body)
+        tail = tail_vals[0] if tail_vals else None
         last_add = max([u.seq for u in m.updates if u.block == 'add'] or [0])
         exits = []
         for node, guards, seq in m.exits:
@@ -203,8 +215,8 @@ def check_acc(run, m, only_count=False):
                     ('NOT(SOME(OLD))' in guards or 'NOT(VALID(OLD0))' in guards):
                 try:
                     en_r = _dt.env_at(m.body, node, {})
-                    en_t = _dt.env_at(m.body, tail, {})
-                    fine = _dt.canon(node['ch'][0], dict(en_r)) == _dt.canon(tail, dict(en_t))
+                    rv = _dt.canon(node['ch'][0], dict(en_r))
+                    fine = all(rv == _dt.canon(t_, dict(_dt.env_at(m.body, t_, {}))) for t_ in tail_vals)
                 except Exception:
                     fine = False
             if not fine:
@@ -386,6 +398,9 @@ def result_leaves(m, n_id, mp_local):
         if k == 'Block':
             if 'expr' in e:
                 leaves(e['expr'], gated, depth + 1, proj)
+            elif e.get('stmts') and e['stmts'][-1]['k'] in ('Semi', 'Expr') and \
+                    peel(e['stmts'][-1]['e']).get('k') == 'Ret':
+                leaves(peel(e['stmts'][-1]['e']), gated, depth + 1, proj)     # `{ return x; }`
             else:
                 out.append((e, gated))
             return
@@ -397,6 +412,10 @@ def result_leaves(m, n_id, mp_local):
         if k == 'Match':
             for a in e['arms']:
                 leaves(a['body'], gated, depth + 1, proj)
+            return
+        if k == 'Ret' and e.get('ch'):
+            # an early `return x`: x is a result like any other
+            leaves(e['ch'][0], gated, depth + 1, proj)
             return
         if k == 'MethodCall' and callee_is(e, 'Cast::cast', 'Number::f64') and len(e['ch']) == 1:
             leaves(e['ch'][0], gated, depth + 1)
